@@ -172,7 +172,9 @@ class EventManager:
                 this_str = str(event.contents)
                 base[event.start_index].append(this_str)
                 for i in range(event.start_index + 1, event.end_index):
-                    contexts[i].append(this_str)
+                    # Rows sharing the onset of the start are the same time point: the process has just started there.
+                    if self.onsets[i] - event.start_time > 1e-9:
+                        contexts[i].append(this_str)
         self.base = self.compress_strings(base)
         self.contexts = self.compress_strings(contexts)
 
